@@ -21,7 +21,7 @@ LEVEL = "exploration"
 RULE = (
     "(a) Input level: the C01 message generator (every group of the table, look-alike values, all modes), plus the same "
     "messages with a non-ASCII character (Latin-1 letter, Cyrillic, CJK, emoji, NBSP, combining mark) inserted into a body "
-    "value, a group member value or late (offset 79..299) in a long value: Codec.encode output (ASCII inputs) and the exact bytes a real logged-on "
+    "value, a group member value (also in a late item of a group of 10..300 items) or late (offset 79..299) in a long value: Codec.encode output (ASCII inputs) and the exact bytes a real logged-on "
     "connection (both roles) hands to writer.write through send_msg are checked by the independent reference framer "
     "(BeginString, BodyLength, MsgType first and in order; three-digit CheckSum last; BodyLength = byte count; CheckSum = byte "
     "sum mod 256); plus, seed-independent: a non-ASCII character in every plain tag of the tag enum in turn, the same message object "
@@ -173,6 +173,19 @@ def special_shard(acc, role):
                     "sender": "CLI", "target": "SRV", "next_out": 1, "carried": 1}
             judge_send(acc, sb, role, case, True)
             acc.case(("tag-sweep", role, tag), cls=["send/tag-sweep", "non-ascii-input"])
+        # (1b) large groups (10 .. 300 items) whose only non-ASCII character sits in a late item
+        for n in (10, 17, 33, 40, 100, 300):
+            for pos in (n - 1, n // 2, 0):
+                sb.fresh_if_needed(role)
+                items = [[("f", "448", f"p{i}" + ("\u00e9" if i == pos else "")), ("f", "447", "D")] for i in range(n)]
+                case = {"msgtype": "D", "mode": "normal", "body": [("f", "11", f"g{n}"), ("g", "453", items), ("f", "58", "after")],
+                        "sender": "CLI", "target": "SRV", "next_out": 1, "carried": 1}
+                judge_send(acc, sb, role, case, True)
+                acc.case(("big-group", role, n, pos), cls=["send/big-group", "non-ascii-input"])
+            sb.fresh_if_needed(role)
+            case = {"msgtype": "D", "mode": "normal", "body": [("f", "11", f"g{n}"), ("g", "453", [[("f", "448", f"p{i}"), ("f", "447", "D")] for i in range(n)])],
+                    "sender": "CLI", "target": "SRV", "next_out": 1, "carried": 1}
+            judge_send(acc, sb, role, case, False)
         # (2) mutate-and-resend the same object
         for k, (gtag, members) in enumerate([("453", ["448", "447", "452"]), ("555", ["600", "624"]), ("78", ["79", "80"])]):
             for depth in (0, 1):
